@@ -311,6 +311,17 @@ pub fn evaluate_single(cfg: &RunCfg, rec: &RunRecord) -> (Vec<Finding>, Facts) {
         let a = d.actual.expect("obs implies actual");
         if cfg.tail > 0 && a >= len as i128 && a < (len + cfg.tail) as i128 {
             // a non-fused source: its sequence ended with the first None
+            if calls[d.call].kind.is_composite() {
+                out.push(f(
+                    "C12",
+                    "visited-beyond-the-source-sequence",
+                    format!(
+                        "{} visited raw={}, which the wrapped iterator yields only if it is polled again after it has returned None: the source has {len} elements",
+                        describe_call(rec, d.call),
+                        o.raw
+                    ),
+                ));
+            }
             out.push(f(
                 "C01",
                 "delivered-beyond-the-source-sequence",
